@@ -6,7 +6,8 @@
 EXTENDS Naturals, Sequences, FiniteSets, TLC
 
 Off == <<>>
-Task(id, d, period, rtr) == [id |-> id, d |-> d, period_us |-> period, rtr |-> rtr]
+\* (ext: the cyclic frame uses the extended format exactly for ids above 0x7FF, like every frame sent)
+Task(id, d, period, rtr) == [id |-> id, d |-> d, period_us |-> period, rtr |-> rtr, ext |-> id > 2047]
 
 \* pr = [sync, syncPeriod, pdo, pdoPeriod, pdoData, pdoId, hb, hbState, od1017, ng]
 \*   sync / pdo / hb / ng : Off or a task record;  syncPeriod / pdoPeriod: remembered period (0 = none)
